@@ -64,6 +64,56 @@ def closure(direct, calls):
     return reads
 
 
+def rule_init_reset(ctx, prog, chk, root="core_init"):
+    """INIT-RESET: every identifier field of the context (`->X_id`, what X_param_get() answers) that some function stores is
+    also stored by a function reachable from core_init: the context object survives core_clean() / core_init(), so an
+    identifier that only the selection writes still names the previous selection after a re-initialisation, where a
+    freshly initialised library answers 0"""
+    lib = prog
+    while getattr(lib, "library", None) is not None:
+        lib = lib.library
+    stores = {}
+    calls = {}
+    byname = {}
+    for fn in list(lib.all) + ([] if lib is prog else list(prog.all)):
+        byname[fn.name] = fn
+        cs = set()
+        for el in fn.all_elements():
+            for sub in ir.walk(fn, el.e):
+                if sub[0] == "=":
+                    f = c19_hist.ctx_field(fn, sub[1])
+                    if f is not None and re.search(r"_id$", f[0]):
+                        stores.setdefault(f[0], set()).add(fn.name)
+                if sub[0] == "c" and isinstance(sub[1], str):
+                    cs.add(sub[1])
+        calls[fn.name] = cs
+    roots = [n for n in byname if n.split("__")[-1] == root]
+    n = 0
+    for r in roots:
+        reach = set()
+        work = [r]
+        while work:
+            f = work.pop()
+            if f in reach:
+                continue
+            reach.add(f)
+            work += [c for c in calls.get(f, ()) if c in byname]
+        prefix = r[:len(r) - len(root)]
+        for field in sorted(stores):
+            # a variant root (self-test) is judged on the fields its own family stores
+            if prefix:
+                tag = prefix.strip("_").split("__")[-1]
+                if not any(tag in w or w in reach for w in stores[field]):
+                    continue
+            n += 1
+            if stores[field] & reach:
+                chk.ok("INIT-RESET", byname[r], field, "stored by %s, reachable from the initialisation" % sorted(stores[field] & reach)[0], line=byname[r].line)
+            else:
+                chk.fail("INIT-RESET", byname[r], field, "->%s is stored by %s only, none of which the initialisation reaches: after core_clean(); core_init() the identifier still names "
+                         "the previous selection" % (field, ", ".join(sorted(stores[field])[:3])), line=byname[r].line)
+    return n
+
+
 def analyse(ctx, prog, chk):
     lib = prog
     while getattr(lib, "library", None) is not None:
